@@ -92,9 +92,14 @@ class Stats:
 
     def __init__(self):
         self.out: dict[str, str] = {}
+        self.probes: dict[str, int] = {}
 
     def add(self, name: str, value) -> None:
         _canon(name, value, self.out)
+
+    def probe(self, name: str, fired) -> None:
+        """Rare-branch probe of the model itself (did the randomised / faulty path actually run?); not part of the digest."""
+        self.probes[name] = int(bool(fired)) | self.probes.get(name, 0)
 
 
 # ---------------------------------------------------------------------------
@@ -229,6 +234,7 @@ def execute(job: dict, full: bool = False) -> dict:
     out = {
         "model": job["model"], "digest": h2.hexdigest(), "log_digest": log_digest, "n": len(log), "stats": stats,
         "status": status, "sim_s": (mon.last_time_ns / 1e9),
+        "probes": st.probes,
         "obs": {"wall_reads": wall.reads, "uuid4_calls": uu.calls, "drew_random": drew_random,
                 "drew_numpy": drew_numpy, "event_counter_before": counter_before},
     }
